@@ -62,11 +62,18 @@ def history(args):
             cls = jwe.FlattenedJSONEncryption if ser == "flattened" else jwe.GeneralJSONEncryption
             obj = cls(hdr, b"same plaintext")
             obj.add_recipient(None, key)
+            two = ser == "general" and alg.startswith("ECDH") and "+" in alg       # a second key-agreement recipient on the same curve
+            if two:
+                obj.add_recipient(None, key)
             tok = jwe.encrypt_json(obj, None, registry=reg, **kw)
             prot = json.loads(R.b64d(tok["protected"]))
             r0 = tok["recipients"][0] if "recipients" in tok else tok
             h = {**prot, **(r0.get("header") or {})}
             iv = R.b64d(tok["iv"]); ek = R.b64d(r0.get("encrypted_key", "")); tag = R.b64d(tok["tag"])
+            if two:     # every key agreement of the message draws its own ephemeral key
+                e2 = (tok["recipients"][1].get("header") or {}).get("epk")
+                if e2:
+                    ev.append({"enc": enc, "crv": e2["crv"], "len": 0, "rcrv": rj["crv"], "p2c": 0, "kind": "epk", "v": list(R.b64d(e2["x"]))})
         base = {"enc": enc, "crv": "", "len": 0, "rcrv": "", "p2c": 0}
         ev.append({**base, "kind": "iv", "v": list(iv)})
         if alg != "dir":
